@@ -50,7 +50,7 @@ type c20Call struct {
 
 type c20Reader struct{ io.Reader }
 
-func (c20Reader) Close() error                        { return nil }
+func (c20Reader) Close() error                       { return nil }
 func (c20Reader) Descriptor() ociregistry.Descriptor { return ociregistry.Descriptor{Size: 4242} }
 
 type c20Writer struct{ ociregistry.BlobWriter }
